@@ -110,7 +110,15 @@ def check_rows(case):
     singles = list(range(m)) if (m <= 32 and case.get("all_singles", True)) else sorted(set(i % m for i in case["singles"]))
     labels = [name]
     nontrivial = False
+    # a copy pickled straight after fit, BEFORE any prediction was asked of the model (lazily built helpers do not exist yet)
+    try:
+        early = pickle.loads(pickle.dumps(est))
+    except Exception as e:  # noqa: BLE001
+        raise Violation("pickle:raises", "%s: %s" % (type(e).__name__, str(e)[:200]), facts)
     methods = entry.available(est)
+    # the order in which the public methods are called is part of the case (predict_proba before predict, transform before predict, ...)
+    rot = (case["perm"][0] if case["perm"] else 0) % max(1, len(methods))
+    methods = methods[rot:] + methods[:rot]
     for meth in methods:
         np.random.seed(1)
         try:
@@ -149,6 +157,8 @@ def check_rows(case):
             raise Violation("pickle:raises:%s" % type(e).__name__, "%s: %s" % (type(e).__name__, str(e)[:300]), f2)
         d = _same(full, entry.call(est2, meth, Q), True)
         require(d is None, "pickle:differs:" + meth, "unpickled model answers differently: %s" % d, f2)
+        d = _same(full, entry.call(early, meth, Q), True)
+        require(d is None, "pickle:differs:before-first-call:" + meth, "a copy pickled right after fit, before any prediction, answers differently: %s" % d, f2)
         try:
             est3 = _testing.clone_with_fitted_parameters(est)
         except RuntimeError as e:
